@@ -76,8 +76,12 @@ func c05Check(src []rune, part string) *mc.Failure {
 			}
 			// a tree stands for the WHOLE text: the tokeniser, run over the text on its own, gets to
 			// its end too (a text whose tail cannot even be cut into tokens has no tree)
-			if _, lexErr, _ := c04Lex(src, nil); lexErr != "" {
+			toks, lexErr, _ := c04Lex(src, nil)
+			if lexErr != "" {
 				f = &mc.Failure{Kind: "mismatch", Bucket: "tree-for-untokenisable-text", Case: cs(), Expected: "a syntax error: the tokeniser alone rejects this text (" + lexErr + ")", Observed: "a tree and no error"}
+			} else if n := len(toks); n > 0 && toks[n-1].S < len(src) {
+				// ... and its end is the end of the text, not a character it takes for the end
+				f = &mc.Failure{Kind: "mismatch", Bucket: "tree-for-a-prefix-of-the-text", Case: cs(), Expected: fmt.Sprintf("a tree for all %d characters or a syntax error", len(src)), Observed: fmt.Sprintf("a tree and no error; the tokeniser reports the end of the text at position %d", toks[n-1].S)}
 			}
 			return
 		}
@@ -97,10 +101,10 @@ func c05Check(src []rune, part string) *mc.Failure {
 			f = &mc.Failure{Kind: "mismatch", Bucket: "display-short", Case: cs(), Expected: "location line + quoted line", Observed: text}
 			return
 		}
-		quoted := strings.Trim(lines[1], "\x00 \t")
+		quoted := strings.Trim(lines[1], " \t")
 		found := false
 		for _, ln := range strings.FieldsFunc(string(src)+"\n", func(r rune) bool { return r == '\r' || r == '\n' }) {
-			if strings.Trim(ln, "\x00 \t") == quoted {
+			if strings.Trim(ln, " \t") == quoted {
 				found = true
 				break
 			}
